@@ -100,6 +100,19 @@ def run_acceptance(item):
     raise Violation('accepted_for_op_but_not_under_star', '%s %s %s resolves to %s' % (sel, algo, c, key))
   if not ok and key != R.NOQ:
     raise Violation('refused_for_op_but_let_through_under_star', '%s %s %s resolves to %s' % (sel, algo, c, key))
+  # ... and independent of what the manager already holds under that regex
+  other = 'CONV_2D' if sel == 'FULLY_CONNECTED' else 'FULLY_CONNECTED'
+  for first in (('*', R.DRQ8), (other, R.DRQ8)):
+    rmh = recipe_manager.RecipeManager()
+    rmh.add_quantization_config('.*', qtyping.TFLOperationName(first[0]), R.make_config(first[1]), R.MINMAX)
+    n0 = len(rmh.get_quantization_recipe())
+    okh, errh = core.call(rmh.add_quantization_config, '.*', qtyping.TFLOperationName(sel), cfg, algo)
+    if okh != ok:
+      raise Violation('verdict_depends_on_recipe_state',
+                      '%s %s %s: fresh manager %s, manager already holding (.*, %s) %s' % (
+                          sel, algo, c, 'accepts' if ok else 'refuses', first[0], 'accepts' if okh else 'refuses'))
+    if not okh and len(rmh.get_quantization_recipe()) != n0:
+      raise Violation('refused_update_changed_recipe', '%s %s %s (manager holding (.*, %s))' % (sel, algo, c, first[0]))
   # the verdict is a function of (op, config): replacing an earlier '*' rule that
   # has already been resolved must give what a fresh manager gives
   for prior in (PRIORS[algo]):
